@@ -508,6 +508,17 @@ def run(ctx):
         ctx.fail('C06.R8', f.key, f.site, f.message)
     if not _lifted:
         ctx.ok('C06.R8', 'kmip/services/server/engine.py', 'no read-only handler modifies a loaded object')
+    # ---------------- C06.R9 (lifted from C01)
+    ctx.rule('C06.R9', 'what a cryptographic operation computed reaches the client: the response (and request) payload classes of Encrypt, Decrypt, Sign, SignatureVerify, MAC and DeriveKey write every element their reader accepts, under the same conditions (lifted from C01.R1/R2)')
+    from ..report import Ctx as _LCtx_C06_R9
+    from . import c01 as _lsrc_C06_R9
+    _sub_C06_R9 = _LCtx_C06_R9('C01', 'quick', ctx.src, 0)
+    _lsrc_C06_R9.run(_sub_C06_R9)
+    _lifted_C06_R9 = [f for f in _sub_C06_R9.findings if f.rule in ('C01.R1', 'C01.R2') and any(x in f.key for x in ('Encrypt', 'Decrypt', 'Sign', 'MAC', 'DeriveKey'))]
+    for f in _lifted_C06_R9:
+        ctx.fail('C06.R9', f.key, f.site, f.message)
+    if not _lifted_C06_R9:
+        ctx.ok('C06.R9', 'lifted from C01', 'reader and writer of the cryptographic payloads agree')
     ctx.not_decided += ['equality of MAC/derive/wrap/encrypt outputs with reference implementations (numeric)', 'Decrypt inverting Encrypt for every input; tag verification; bit/byte length of derived keys',
                         'randomness quality / freshness across calls beyond provenance from os.urandom']
     ctx.assumptions += ['class names of the cryptography package denote the primitives of that name', 'T_ALIAS: RC4 = ARC4, PKCS5 = PKCS7 padding']
